@@ -303,7 +303,7 @@ def global_state():
 
 
 def run_world(spec, argv, child_hook=None, warnings=None, probe=True,
-              want_state=False, stdin=None, runner_kw=None):
+              want_state=False, stdin=None, runner_kw=None, defaults=None):
     """Run the real Runner in-process on ``spec`` with argument vector
     ``['vt-script'] + argv``.  Returns a Result."""
     R, F = _mods()
@@ -360,7 +360,7 @@ def run_world(spec, argv, child_hook=None, warnings=None, probe=True,
     try:
         try:
             kw = dict(runner_kw or {})
-            runner = R.Runner(None, ['vt-script'] + list(argv),
+            runner = R.Runner(list(defaults) if defaults is not None else None, ['vt-script'] + list(argv),
                               found_suites=built.suites,
                               script_parts=['vt-script'], cwd=None,
                               warnings=warnings, **kw)
@@ -507,7 +507,7 @@ def parse_name_list(text, header):
     return [ln[3:] for ln in m.group(1).split('\n') if ln]
 
 
-def run_plain(argv, roots=(), want_state=False):
+def run_plain(argv, roots=(), want_state=False, defaults=None):
     """Run the real Runner in-process with *real discovery* (no found_suites)
     on directory trees.  Modules imported from ``roots`` and sys.path entries
     added by the run are removed afterwards."""
@@ -533,7 +533,7 @@ def run_plain(argv, roots=(), want_state=False):
     runner = None
     try:
         try:
-            runner = R.Runner(None, ['vt-script'] + list(argv),
+            runner = R.Runner(list(defaults) if defaults is not None else None, ['vt-script'] + list(argv),
                               script_parts=['vt-script'], cwd=None)
             runner.run()
         except BaseException as e:
